@@ -98,6 +98,61 @@ AREAS = [
              bind={'GetEnableFlapping()': Bb('enable_flapping'), 'IcingaApplication::GetInstance()->GetEnableFlapping()': Bb('global_flapping'),
                    'GetFlapping()': Bb('flapping')}),
     ]),
+    # ---------------------------------------------------------------------------------------- C03 notification filters
+    dict(area='notif', requires=['Icv.Facts.Facts_enums', 'Icv.Src.XlPrelude'], items=[
+        dict(name='service_state_to_filter', func='icinga::ServiceStateToFilter', file='lib/icinga/notification.cpp', props=['C03', 'C07'],
+             inputs=[('state', 'Z')], ret='Z', params={'state': Zb('state')}, abort='0'),
+        dict(name='host_state_to_filter', func='icinga::HostStateToFilter', file='lib/icinga/notification.cpp', props=['C03', 'C07'],
+             inputs=[('state', 'Z')], ret='Z', params={'state': Zb('state')}, abort='0'),
+        dict(name='notification_check_user_filters', func='Notification::CheckNotificationUserFilters', file='lib/icinga/notification.cpp', props=['C03'],
+             inputs=[('type', 'Z'), ('force', 'bool'), ('reminder', 'bool'), ('u_has_period', 'bool'), ('u_period_inside', 'bool'),
+                     ('u_type_filter', 'Z'), ('is_svc', 'bool'), ('state', 'Z'), ('u_state_filter', 'Z')], ret='bool',
+             params={'type': Zb('type'), 'force': Bb('force'), 'reminder': Bb('reminder')},
+             stmts={'tie(host,service)=GetHostService(GetCheckable())': {'host': 'HOST', 'service': 'SVC'}},
+             bind={'user->GetPeriod()': ('u_has_period', 'ptr'), 'user->GetPeriod()->IsInside(Utility::GetTime())': Bb('u_period_inside'),
+                   'user->GetTypeFilter()': Zb('u_type_filter'), 'user->GetStateFilter()': Zb('u_state_filter'),
+                   'SVC': ('is_svc', 'ptr'), 'SVC->GetState()': Zb('state'), 'HOST->GetState()': Zb('state')},
+             fns={'ServiceStateToFilter': ('src_service_state_to_filter', ['Z'], 'Z'), 'HostStateToFilter': ('src_host_state_to_filter', ['Z'], 'Z')}),
+    ]),
+    # ---------------------------------------------------------------------------------------- C07 Dependency::IsAvailable
+    dict(area='dep', requires=['Icv.Facts.Facts_enums', 'Icv.Src.XlPrelude', 'Icv.Facts.Facts_fn_notif'], items=[
+        dict(name='dependency_is_available', func='Dependency::IsAvailable', file='lib/icinga/dependency.cpp', props=['C07'],
+             inputs=[('aspect', 'Z'), ('same', 'bool'), ('p_checked', 'bool'), ('ignore_soft', 'bool'), ('p_state_type', 'Z'), ('p_is_svc', 'bool'),
+                     ('p_state', 'Z'), ('state_filter', 'Z'), ('has_period', 'bool'), ('period_inside', 'bool'),
+                     ('disable_checks', 'bool'), ('disable_notifications', 'bool')], ret='bool',
+             params={'dt': Zb('aspect')},
+             stmts={'tie(parentHost,parentService)=GetHostService(GetParent())': {'parentHost': 'PARENT_HOST', 'parentService': 'PARENT_SVC'}},
+             bind={'GetParent()==GetChild()': Bb('same'), 'GetParent()->GetLastCheckResult()': ('p_checked', 'ptr'),
+                   'GetIgnoreSoftStates()': Bb('ignore_soft'), 'GetParent()->GetStateType()': Zb('p_state_type'),
+                   'PARENT_SVC': ('p_is_svc', 'ptr'), 'PARENT_SVC->GetState()': Zb('p_state'), 'PARENT_HOST->GetState()': Zb('p_state'),
+                   'GetStateFilter()': Zb('state_filter'), 'GetPeriod()': ('has_period', 'ptr'),
+                   'GetPeriod()->IsInside(Utility::GetTime())': Bb('period_inside'),
+                   'GetDisableChecks()': Bb('disable_checks'), 'GetDisableNotifications()': Bb('disable_notifications')},
+             fns={'ServiceStateToFilter': ('src_service_state_to_filter', ['Z'], 'Z'), 'HostStateToFilter': ('src_host_state_to_filter', ['Z'], 'Z')}),
+    ]),
+    # ---------------------------------------------------------------------------------------- C09 exit status
+    dict(area='macro', requires=['Icv.Facts.Facts_enums', 'Icv.Src.XlPrelude'], items=[
+        dict(name='exit_status_to_state', func='PluginUtility::ExitStatusToState', file='lib/icinga/pluginutility.cpp', props=['C09'],
+             inputs=[('exit_status', 'Z')], ret='Z', params={'exitStatus': Zb('exit_status')}),
+    ]),
+    # ---------------------------------------------------------------------------------------- C08 TimePeriod::IsInside
+    dict(area='tp', requires=['Icv.Src.XlPrelude'], items=[
+        dict(name='timeperiod_is_inside', func='TimePeriod::IsInside', file='lib/icinga/timeperiod.cpp', props=['C08'],
+             inputs=[('ts', 'Z'), ('vb_empty', 'bool'), ('vb', 'Z'), ('ve_empty', 'bool'), ('ve', 'Z'), ('has_segments', 'bool'),
+                     ('segments', 'list (Z * Z)')], ret='bool',
+             params={'ts': Zb('ts')},
+             bind={'GetValidBegin().IsEmpty()': Bb('vb_empty'), 'GetValidBegin()': Zb('vb'), 'GetValidEnd().IsEmpty()': Bb('ve_empty'),
+                   'GetValidEnd()': Zb('ve'), 'GetSegments()': ('has_segments', 'ptr'),
+                   'segment->Get("begin")': ('fst segment', 'Z'), 'segment->Get("end")': ('snd segment', 'Z')},
+             lists={'GetSegments()': ('segments', '(Z * Z)%type')}),
+    ]),
+    # ---------------------------------------------------------------------------------------- C10 Utility::SDBM
+    dict(area='auth', requires=['Icv.Src.XlPrelude'], items=[
+        dict(name='utility_sdbm', func='Utility::SDBM', file='lib/base/utility.cpp', props=['C10'],
+             inputs=[('str', 'list Z'), ('len', 'Z')], ret='u64',
+             params={'str': ('str', 'chars'), 'len': ('len', 'u64')},
+             lists={'str': ('str', 'Z')}),
+    ]),
 ]
 
 ENUM_SOURCES = [('lib/icinga/checkresult.ti', ['HostState', 'ServiceState', 'StateType'], 'f_'),
